@@ -210,6 +210,32 @@ def _nested_defs(fnode):
     return [n for n in _own_nodes(fnode) if isinstance(n, (ast.FunctionDef, ast.AsyncFunctionDef))]
 
 
+def _name_free_for(fnode, name):
+    """May `name` be given to a local of fnode's own scope?  Yes when it occurs neither in the scope itself nor in a nested
+    function that does not bind it (a nested function with its own binding of the name is unaffected)."""
+    for n in _own_nodes(fnode):
+        if isinstance(n, ast.Name) and n.id == name:
+            return False
+        if isinstance(n, ast.ExceptHandler) and n.name == name:
+            return False
+        if isinstance(n, (ast.FunctionDef, ast.AsyncFunctionDef)):
+            if n.name == name:
+                return False
+            if name in {b for b, _ in scope_bindings(n)}:
+                continue
+            if not _name_free_for(n, name):
+                return False
+            for d in n.args.defaults + [x for x in n.args.kw_defaults if x is not None]:
+                if any(isinstance(x, ast.Name) and x.id == name for x in ast.walk(d)):
+                    return False
+        if isinstance(n, ast.Lambda) and any(isinstance(x, ast.Name) and x.id == name for x in ast.walk(n)):
+            return False
+    for a in fnode.args.posonlyargs + fnode.args.args + fnode.args.kwonlyargs + ([fnode.args.vararg] if fnode.args.vararg else []) + ([fnode.args.kwarg] if fnode.args.kwarg else []):
+        if a.arg == name:
+            return False
+    return True
+
+
 def _all_names(fnode):
     names = set()
     for n in ast.walk(fnode):
@@ -331,7 +357,7 @@ def unrename_locals(prog):
                         for blk in sm2.get_matching_blocks():
                             for d_ in range(blk.size):
                                 mapping[b[blk.b + d_][0]] = a[blk.a + d_][0]
-            mapping = {k: v for k, v in mapping.items() if k != v and v not in used and k in dict(new) and v in dict(vanished)}
+            mapping = {k: v for k, v in mapping.items() if k != v and (v not in used or _name_free_for(node, v)) and k in dict(new) and v in dict(vanished)}
             # one-to-one
             inv = {}
             for k, v in list(mapping.items()):
@@ -751,6 +777,18 @@ class _Canon(ast.NodeTransformer):
 
     def visit_If(self, n):
         self.generic_visit(n)
+        # P20: `if not c: B else: A` -> `if c: A else: B` (both branches present, the else branch not an elif chain)
+        if n.orelse and n.body and isinstance(n.test, ast.UnaryOp) and isinstance(n.test.op, ast.Not) and not (len(n.orelse) == 1 and isinstance(n.orelse[0], ast.If)) \
+                and not (len(n.body) == 1 and isinstance(n.body[0], ast.If) and n.body[0].orelse):
+            n.test = n.test.operand
+            n.body, n.orelse = n.orelse, n.body
+            self.count += 1
+        # ... and `if a != b: B else: A` -> `if a == b: A else: B` (likewise `not in`, `is not`)
+        if n.orelse and n.body and isinstance(n.test, ast.Compare) and len(n.test.ops) == 1 and isinstance(n.test.ops[0], (ast.NotEq, ast.NotIn, ast.IsNot)) \
+                and not (len(n.orelse) == 1 and isinstance(n.orelse[0], ast.If)) and not (len(n.body) == 1 and isinstance(n.body[0], ast.If) and n.body[0].orelse):
+            n.test = ast.copy_location(ast.Compare(left=n.test.left, ops=[_NEG[type(n.test.ops[0])]()], comparators=n.test.comparators), n.test)
+            n.body, n.orelse = n.orelse, n.body
+            self.count += 1
         if len(n.body) == 1 and len(n.orelse) == 1 and isinstance(n.body[0], ast.Assign) and isinstance(n.orelse[0], ast.Assign):
             a, b = n.body[0], n.orelse[0]
             if len(a.targets) == 1 and len(b.targets) == 1 and _same_target(a.targets[0], b.targets[0]) and isinstance(a.targets[0], (ast.Name, ast.Attribute)):
